@@ -260,6 +260,106 @@ def _expand_combinator(prog, t, locals_, blocks, b, file_):
     return new
 
 
+FN_CALLS = ("std::ops::FnOnce::call_once", "std::ops::FnMut::call_mut", "std::ops::Fn::call")
+
+
+def _single_def_stmt(blocks, l):
+    found = None
+    for blk in blocks:
+        for st in blk["s"]:
+            if st["k"] == "assign" and st["place"]["l"] == l and not st["place"]["p"]:
+                if found is not None:
+                    return None
+                found = st
+        t = blk["t"]
+        if t["k"] == "call" and t["dest"]["l"] == l and not t["dest"]["p"]:
+            return None
+    return found
+
+
+def _closure_of(locals_, blocks, l, depth=0):
+    """the closure literal local a value local stands for (through moves and borrows), or None"""
+    if depth > 8:
+        return None
+    if locals_[l].get("k") == "closure" and locals_[l].get("key"):
+        return l
+    st = _single_def_stmt(blocks, l)
+    if st is None:
+        return None
+    rv = st["rv"]
+    if rv["k"] == "use" and rv["x"].get("k") in ("copy", "move") and all(pe == "deref" for pe in rv["x"]["p"]):
+        return _closure_of(locals_, blocks, rv["x"]["l"], depth + 1)
+    if rv["k"] in ("ref", "rawptr") and all(pe == "deref" for pe in rv["place"]["p"]):
+        return _closure_of(locals_, blocks, rv["place"]["l"], depth + 1)
+    return None
+
+
+def _fn_item_of(locals_, blocks, o, depth=0):
+    """the function item constant an operand stands for (through moves), or None"""
+    if depth > 8:
+        return None
+    if o.get("k") == "const":
+        return o if "fn_key" in o else None
+    if o.get("k") in ("copy", "move") and all(pe == "deref" for pe in o["p"]):
+        st = _single_def_stmt(blocks, o["l"])
+        if st is None:
+            return None
+        rv = st["rv"]
+        if rv["k"] == "use":
+            return _fn_item_of(locals_, blocks, rv["x"], depth + 1)
+        if rv["k"] in ("ref", "rawptr") and all(pe == "deref" for pe in rv["place"]["p"]):
+            return _fn_item_of(locals_, blocks, {"k": "copy", "l": rv["place"]["l"], "p": []}, depth + 1)
+    return None
+
+
+def _resolve_closure_call(prog, t, locals_, blocks):
+    """rewrite `FnOnce::call_once(closure_value, (a, b, ..))` into a direct call of the closure body
+    with the arguments untupled; returns True if rewritten"""
+    recv, tup = t["args"]
+    if tup.get("k") not in ("copy", "move") or tup["p"]:
+        return False
+    st = _single_def_stmt(blocks, tup["l"])
+    if st is None or st["rv"]["k"] != "agg" or st["rv"].get("agg") != "tuple":
+        return False
+    ops = st["rv"]["ops"]
+    # a function item handed around as a value: call it directly
+    fitem = _fn_item_of(locals_, blocks, recv)
+    if fitem is not None:
+        tj = {"key": fitem["fn_key"], "path": fitem["fn"].split("::<")[0], "full": fitem["fn"], "name": fitem["fn"].split("::")[-1]}
+        g0 = prog.by_key.get(fitem["fn_key"])
+        if g0 is not None:
+            tj["local"] = True
+            tj["path"] = g0.path
+            if g0.argc != len(ops):
+                return False
+        t["f"] = tj
+        t["args"] = [{"k": "move", "l": tup["l"], "p": [{"f": i, "n": str(i)}]} for i in range(len(ops))]
+        return True
+    if recv.get("k") not in ("copy", "move"):
+        return False
+    cl = _closure_of(locals_, blocks, recv["l"])
+    if cl is None:
+        return False
+    g = prog.by_key.get(locals_[cl].get("key"))
+    if g is None or not g.blocks:
+        return False
+    if g.argc != 1 + len(ops):
+        return False
+    # receiver as the body expects it: by value for FnOnce closures, by reference otherwise
+    want_ref = g.locals[1].get("t", "").startswith("&")
+    have_ref = locals_[recv["l"]].get("t", "").startswith("&") or locals_[recv["l"]].get("k") == "ref"
+    args = [copy.deepcopy(recv)]
+    if want_ref and not have_ref:
+        # cannot take a reference without a new statement here; bind by value (the engines only follow
+        # the data flow, which is the same)
+        pass
+    for i in range(len(ops)):
+        args.append({"k": "move", "l": tup["l"], "p": [{"f": i, "n": str(i)}]})
+    t["f"] = {"key": g.key, "local": True, "path": g.path, "full": g.path, "name": "{closure}", "closure_call": True}
+    t["args"] = args
+    return True
+
+
 VALUE_COMBINATORS = ("std::option::Option::<T>::unwrap_or", "std::result::Result::<T, E>::unwrap_or",
                      "std::option::Option::<T>::map_or", "std::result::Result::<T, E>::map_or")
 
@@ -286,6 +386,11 @@ def inline(prog, f, pick=None, keep=(), depth=MAX_DEPTH, cross=None, value_combi
         if t["k"] != "call" or len(blocks) > MAX_BLOCKS:
             continue
         fj = t["f"]
+        if fj.get("path") in FN_CALLS and len(t["args"]) == 2 and len(stack_of[b]) <= depth:
+            # `f(a, b)` on a value that is a closure literal of this view (possibly handed through the
+            # parameters of folded-in helpers): call the closure body directly
+            if _resolve_closure_call(prog, t, locals_, blocks):
+                fj = t["f"]
         if fj.get("path") in COMBINATORS and len(stack_of[b]) <= depth and (value_combinators or fj.get("path") not in VALUE_COMBINATORS):
             newb = _expand_combinator(prog, t, locals_, blocks, b, blocks[b].get("file", f.file))
             if newb:
